@@ -1,6 +1,6 @@
 (* C14  before_sleep/before_handle_events: once per dispatch, in order, right events. *)
 From CV Require Import Base Consts Token PostAction Env Loop.
-From CVP Require Import Loop_frames Seq_lemmas C06_proofs C14_proofs C14_life C14_life2.
+From CVP Require Import Loop_frames Seq_lemmas C06_proofs C14_proofs C14_life C14_life2 C14_once.
 Open Scope N_scope.
 
 (* the set of sources with lifecycle events: recording is idempotent (no duplicate entry after update/Reregister),
@@ -60,6 +60,49 @@ Theorem C14_never_unreachable : forall scr bscr cmds, gens_small (slots (run scr
   forall e2 line polled, let s1 := fst (before_sleep_loop bscr s (lifecycle s)) in
     snd (before_handle_loop (emit (set_en s1 e2) line) (lifecycle (emit (set_en s1 e2) line)) polled) = true.
 Proof. exact never_unreachable. Qed.
+
+(* EXACTLY ONCE PER DISPATCH, whole histories.
+   (1) Over any scenario - no hypothesis at all - the lifecycle list only ever changes by lc_register (of a token with sub-id 0)
+       and lc_unregister, so it never holds a token twice (the repaired defect F1 was a duplicate entry after update()).
+   (2) In every reachable state distinct entries resolve to distinct sources (an object sits in at most one slot), so in the
+       before_sleep loop of the next dispatch each source's before_sleep counter grows by exactly one if the loop completes
+       (never by more if a hook returns an error), and stays put for every object that is not a lifecycle source;
+   (3) the before_handle_events loop of that dispatch never fails and appends exactly one BH line per entry, in list order, each
+       with the polled events of that entry's token, for pairwise distinct sources. *)
+Theorem C14_lifecycle_list_never_repeats : forall scr bscr cmds, NoDup (lifecycle (run scr bscr cmds)).
+Proof. exact lifecycle_nodup_run. Qed.
+Theorem C14_lifecycle_list_changes_only_by_register_unregister : forall scr bscr cmds s,
+  lcstep (lifecycle s) (lifecycle (fold_left (exec_cmd scr bscr) cmds s)).
+Proof. intros scr bscr cmds s. apply lc_exec_cmds. Qed.
+Theorem C14_before_sleep_exactly_once_per_dispatch : forall scr bscr cmds o,
+  let s := run scr bscr cmds in gens_small (slots s) -> halted s = false ->
+  let r := before_sleep_loop bscr s (lifecycle s) in
+  (bsn (fst r) o <= S (bsn s o))%nat /\
+  (snd r = BSOk -> (exists t, In t (lifecycle s) /\ lc_lookup s t = Some o) -> bsn (fst r) o = S (bsn s o)) /\
+  (snd r = BSOk -> (forall t, In t (lifecycle s) -> lc_lookup s t <> Some o) -> bsn (fst r) o = bsn s o).
+Proof. exact before_sleep_once_per_dispatch. Qed.
+Theorem C14_before_handle_exactly_once_per_dispatch : forall scr bscr cmds e2 line polled,
+  let s := run scr bscr cmds in gens_small (slots s) -> halted s = false ->
+  let s3 := emit (set_en (fst (before_sleep_loop bscr s (lifecycle s))) e2) line in
+  let r := before_handle_loop s3 (lifecycle s3) polled in
+  snd r = true /\ lifecycle s3 = lifecycle s /\
+  log (fst r) = rev (map (bh_line s3 polled) (lifecycle s3)) ++ log s3 /\
+  NoDup (map (lc_lookup s3) (lifecycle s3)) /\ (forall t, In t (lifecycle s3) -> lc_lookup s3 t <> None).
+Proof. exact before_handle_once_per_dispatch. Qed.
+(* met by a real history: two lifecycle composites, each updated (twice for the first), one disabled and re-enabled: two
+   entries, and the next dispatch calls before_sleep once for each *)
+Example C14_once_nonvacuous :
+  let g10 := mkGen 10 (mkInt true false) Level None false in
+  let g11 := mkGen 11 (mkInt true false) Level None false in
+  let pre := [CAct (AInsert 1 (SComp true None [g10] None)); CAct (AUpdate 1); CAct (AInsert 2 (SComp true None [g11] None));
+              CAct (AUpdate 2); CAct (AUpdate 1); CAct (ADisable 2); CAct (AEnable 2)] in
+  let s := run (fun _ => []) (fun _ => []) pre in
+  let r := before_sleep_loop (fun _ => []) s (lifecycle s) in
+  halted s = false /\ lifecycle s = [mkTok 0 0 0; mkTok 1 0 0] /\ lc_lookup s (mkTok 0 0 0) = Some 1 /\ lc_lookup s (mkTok 1 0 0) = Some 2 /\
+  snd r = BSOk /\ (bsn s 1, bsn s 2, bsn s 3) = (0, 0, 0)%nat /\ (bsn (fst r) 1, bsn (fst r) 2, bsn (fst r) 3) = (1, 1, 0)%nat /\
+  filter (fun l => match l with L k _ => N.eqb k 3 end) (trace_of (run (fun _ => []) (fun _ => []) (pre ++ [CDispatch 0%Z []])))
+    = [L 3 [1%Z; 0%Z]; L 3 [2%Z; 0%Z]].
+Proof. vm_compute. repeat split. Qed.
 
 Example C14_nonvacuous :
   let t := mkTok 2 5 0 in NoDup [mkTok 1 0 0; t] /\ lc_register [mkTok 1 0 0; t] t = [mkTok 1 0 0; t] /\ lc_unregister [mkTok 1 0 0; t] t = [mkTok 1 0 0].
